@@ -15,7 +15,8 @@ CHECKS = {
           "and shows that the leaky-minscore variant differs (negative control); every TLC-enumerated condition tree on "
           "every TLC-enumerated gene layout (inside / at / outside the cutoff, across the origin) with seeded hit tables, "
           "plus random deeper trees, is parsed by the real Parser and evaluated by DetectionRule.detect on every gene; "
-          "RuleAst_Trace (TLC) decides met/anchoring/reasons for each."),
+          "RuleAst_Trace (TLC) decides met/anchoring/reasons for each."
+          " The same question is also put the way the pipeline puts it: apply_cluster_rules on a real record, with the neighbours that function gathers for the rule's cutoff; the answers the rule gives there are judged by the same clauses."),
     design="6/C01", technique="TLA+ spec (RuleAst.tla) + TLC model checking + TLC trace validation of DetectionRule.detect",
     note=TRUSTED + "Trees up to 3 operands exhaustively over the catalogue, depth <= 4 sampled; integer bitscores."),
  "C04": dict(
@@ -77,7 +78,8 @@ CHECKS = {
           "dump_records with stub module results and a wrapped builtins.open; TLC replays the logged Convert/Ser/Open/Write events "
           "through the spec's actions and decides the state of the target's bytes. Directory guard: all 392 configurations of "
           "pre-existing contents x fresh/reuse run through the real prepare_output_directory; TLC decides refuse/accept against a "
-          "must-refuse / must-accept sandwich and that a refusal leaves the recursive listing untouched."),
+          "must-refuse / must-accept sandwich and that a refusal leaves the recursive listing untouched."
+          ' The directory guard is also met through the command line entry point with the default output directory, and the writer through run_antismash in reuse mode.'),
     design="6/C20", technique="TLA+ spec (SafeWrite.tla) + TLC model checking with negative controls + TLC trace validation (event replay) of fault-injected real calls",
     note=TRUSTED + "Open/Write are seen through builtins.open/io.open only. Dot-files as only foreign contents (P16), an absent "
          "directory and reuse from a json outside the directory are unspecified by design. Each run also ships corrupted events "
@@ -91,7 +93,8 @@ CHECKS = {
           "on the real parallel_function through barrier files; what the caller got is decided by TLC in Pool_Trace. Worker counts "
           "1..16 with batches below/at/above the pool size, parallel_execute with shell commands behind the same barriers, and 84 "
           "TLC-enumerated record contents (origin-spanning genes/regions, sectioned CDS tuples) through the pool, pickle, "
-          "sanitise_sequence and ensure_cds_info are validated by the same trace spec."),
+          "sanitise_sequence and ensure_cds_info are validated by the same trace spec."
+          ' The whole pre-processing step is run as a transport as well: with a stub gene finder, with a gene finder refusing one record (the error must surface, no hang), and with the shipped gene finding module over a stand-in prodigal binary (one worker against k workers).'),
     design="6/C18", technique="TLA+ spec (Pool.tla) + TLC model checking of all completion orders + forced-schedule replay on the real pool + TLC trace validation",
     note=TRUSTED + "Hanging schedules and the chunked configuration are seeded samples of the TLC schedules. With cpus = 1 the "
          "timeout is ignored as documented. Gene finding is a stub (no prodigal). A schedule that cannot be enforced within 30 s is "
@@ -141,7 +144,8 @@ CHECKS = {
           "TLC shows on every list of <= 3 ids from a pool of 19 (33), both settings, that the repaired pipeline satisfies the "
           "post-condition and that the original pipeline shape violates it (negative controls), then decides in RecordIds_Trace the "
           "observed ids/names/original ids of the real pre_process_sequences on every such list plus seeded random lists, and direct "
-          "calls of fix_record_name_id, generate_unique_id and Record.add_cds_feature."),
+          "calls of fix_record_name_id, generate_unique_id and Record.add_cds_feature."
+          " What the outputs say is looked at too: the original identifier in the results file as a reuse run reads it (main.read_data) and in the antiSMASH-Data comment of each record's GenBank output."),
     design="6/C16", technique="TLA+ spec (RecordIds.tla) + TLC model checking + TLC trace validation of real calls",
     note=TRUSTED + "Exhaustive for lists <= 3 from the pool; random lists are samples. Ids reach the code as in-memory secmet Records; "
          "1 cpu, in-process (the parallel path is C18's). Names are checked for characters/length, not uniqueness."),
@@ -154,7 +158,8 @@ CHECKS = {
           "convert_protein_position_to_dna, Prepeptide.to_biopython (leader/core/tail), hmmer.build_hits, "
           "generate_domain_features/generate_motif_features and TTAResults.new_feature_from_other, plus codon_start application/undo "
           "and the real extract+translate comparison, for every gene and range of the universe (records of 12 bases quick, 12-18 "
-          "thorough) and for seeded random genes on longer records."),
+          "thorough) and for seeded random genes on longer records."
+          ' The TTA scan itself (tta.detect) is run on genes in one piece with planted TTA codons: exactly those codons are marked.'),
     design="6/C09", technique="TLA+ spec (Translate.tla on Ring.tla) + TLC model checking with negative controls + TLC trace validation of real calls",
     note=TRUSTED + "Exons of one gene disjoint; fuzzy positions outside the model; the genetic code enters only through the observed "
          "extract+translate boolean; build_hits driven by fake search results. Two known findings remain (reverse-strand origin-spanning "
